@@ -769,7 +769,8 @@ spif_mbuff_trim(spif_mbuff_t self)
     end = self->buff + self->len - 1;
     for (; isspace((spif_uchar_t) (*start)) && (start < end); start++);
     for (; isspace((spif_uchar_t) (*end)) && (start < end); end--);
-    if (start > end) {
+    if (isspace((spif_uchar_t) (*start))) {
+        /* The scans met on a blank:  there is nothing but whitespace. */
         return spif_mbuff_done(self);
     }
     self->len = (spif_memidx_t) (end - start + 1);
